@@ -758,6 +758,17 @@ func (t *trans) call(c *ast.CallExpr) string {
 			if len(c.Args) == 2 {
 				return t.expr(c.Args[1])
 			}
+		case "bcrypt.GenerateFromPassword":
+			if len(c.Args) == 2 {
+				pw := c.Args[0]
+				if conv, ok := pw.(*ast.CallExpr); ok && len(conv.Args) == 1 {
+					if _, isArr := conv.Fun.(*ast.ArrayType); isArr {
+						pw = conv.Args[0]
+					}
+				}
+				t.addExtern("bcryptGenerate", "String → Outcome ((List UInt8) × GoError)")
+				return "(← env.bcryptGenerate " + t.expr(pw) + ")"
+			}
 		case "bcrypt.CompareHashAndPassword":
 			if len(c.Args) == 2 {
 				pw := c.Args[1]
@@ -1460,6 +1471,7 @@ func (t *trans) assign(o *out, ind int, x *ast.AssignStmt) {
 		var ns []string
 		anyMut := x.Tok == token.ASSIGN
 		fieldOf := map[int]string{} // position -> field of the state variable / modified receiver assigned there
+		localField := map[int][2]string{} // position -> (local struct variable, field) assigned there
 		for i, l := range x.Lhs {
 			if sel, ok := l.(*ast.SelectorExpr); ok && t.isRecv(sel.X) && t.cur.mutRecv && x.Tok == token.ASSIGN {
 				tv := t.info.Types[sel.X]
@@ -1468,6 +1480,21 @@ func (t *trans) assign(o *out, ind int, x *ast.AssignStmt) {
 				fieldOf[i] = sel.Sel.Name
 				ns = append(ns, "_")
 				continue
+			}
+			if sel, ok := l.(*ast.SelectorExpr); ok && x.Tok == token.ASSIGN {
+				if lid, ok := sel.X.(*ast.Ident); ok && !t.isRecv(sel.X) {
+					if tv, ok := t.info.Types[sel.X]; ok && !isPointer(tv.Type) {
+						if sname, _ := namedOf(tv.Type); sname != "" {
+							if _, own := t.structs[sname]; own {
+								t.useField(sname, sel.Sel.Name)
+								localField[i] = [2]string{lid.Name, sel.Sel.Name}
+								ns = append(ns, "_")
+								anyMut = true
+								continue
+							}
+						}
+					}
+				}
 			}
 			id, ok := l.(*ast.Ident)
 			if !ok {
@@ -1500,6 +1527,10 @@ func (t *trans) assign(o *out, ind int, x *ast.AssignStmt) {
 			}
 			if f, ok := fieldOf[i]; ok {
 				o.line(ind, t.cur.recv+" := { "+t.cur.recv+" with "+f+" := "+proj+" }")
+				continue
+			}
+			if lf, ok := localField[i]; ok {
+				o.line(ind, t.varName(lf[0])+" := { "+t.varName(lf[0])+" with "+lf[1]+" := "+proj+" }")
 				continue
 			}
 			if n == "_" {
@@ -1589,7 +1620,11 @@ func (t *trans) switchStmt(o *out, ind int, x *ast.SwitchStmt) {
 		}
 		first = false
 		o.line(ind, kw+strings.Join(conds, " || ")+" then")
-		t.block(o, ind+1, &ast.BlockStmt{List: cc.Body})
+		if len(cc.Body) == 0 {
+			o.line(ind+1, "pure ()")
+		} else {
+			t.block(o, ind+1, &ast.BlockStmt{List: cc.Body})
+		}
 	}
 	if deflt != nil {
 		if first {
@@ -2201,6 +2236,7 @@ func translate(repo string, p *pkgFiles, outPath string) {
 	idpSpecs := []transSpec{
 		{fn: "HandlePutService", recv: "Server", mutRecv: true, trace: true},
 		{fn: "HandleDeleteService", recv: "Server", mutRecv: true, trace: true},
+		{fn: "HandlePutUser", recv: "Server", as: "putUserTail", trace: true, anchor: "user.Name = r.PathValue(\"id\")"},
 		{fn: "GetServiceProvider", recv: "Server"},
 		{fn: "initializeServices", recv: "Server", mutRecv: true},
 		{fn: "GetSession", recv: "Server", as: "credentialGuards", trace: true, inside: "if r.Method == \"POST\" && r.PostForm.Get(\"user\") != \"\" {", until: "session := &saml.Session{"},
